@@ -88,6 +88,19 @@ type TxCtx struct {
 	LockTime uint32 `json:"locktime"`
 	Seq      uint32 `json:"seq"`
 	Amount   uint64 `json:"amount"`
+	// NBefore / NAfter other inputs stand before / behind the checked one (ninth round: the
+	// checked input is not always input 0); they carry the sequence number OtherSeq.
+	NBefore  int    `json:"nbefore,omitempty"`
+	NAfter   int    `json:"nafter,omitempty"`
+	OtherSeq uint32 `json:"other_seq,omitempty"`
+}
+
+// Index is the position of the checked input in the transaction Model builds.
+func (c TxCtx) Index() int {
+	if c.NBefore < 0 {
+		return 0
+	}
+	return c.NBefore
 }
 
 // Model builds the spending transaction model (one input, one output) for a program.
@@ -95,6 +108,22 @@ func (c TxCtx) Model(unlock, lock []byte) ref.Tx {
 	m := interp.SpendingTx(unlock, lock, c.Amount)
 	m.Version, m.LockTime = c.Version, c.LockTime
 	m.In[0].Seq = c.Seq
+	if c.NBefore > 0 || c.NAfter > 0 {
+		other := func(k int) ref.In {
+			id := make(pbt.Hex, 32)
+			id[0], id[31] = byte(k+1), 0x77
+			return ref.In{TxID: id, Vout: uint32(k), Unlock: pbt.Hex{0x51}, Seq: c.OtherSeq, PrevSats: 1, PrevScript: pbt.Hex{0x51}}
+		}
+		var ins []ref.In
+		for k := 0; k < c.NBefore && k < 8; k++ {
+			ins = append(ins, other(k))
+		}
+		ins = append(ins, m.In[0])
+		for k := 0; k < c.NAfter && k < 8; k++ {
+			ins = append(ins, other(100+k))
+		}
+		m.In = ins
+	}
 	return m
 }
 
@@ -114,7 +143,7 @@ type Outcome struct {
 // nil (no debugger), or any Debugger (a *Recorder to collect the trace).
 func Run(unlock, lock []byte, flags interp.Flags, c TxCtx, dbg interpreter.Debugger) (out Outcome) {
 	m := c.Model(unlock, lock)
-	return RunModel(m, 0, lock, c.Amount, flags, dbg)
+	return RunModel(m, c.Index(), lock, c.Amount, flags, dbg)
 }
 
 // FlagOpts renders a flag set as execution options. The form is a pure function of the case
@@ -154,11 +183,16 @@ func RunModel(m ref.Tx, idx int, lock []byte, amount uint64, flags interp.Flags,
 
 // RunOn is Run on an engine the caller owns (and may have used before).
 func RunOn(eng interpreter.Engine, unlock, lock []byte, flags interp.Flags, c TxCtx, dbg interpreter.Debugger) (out Outcome) {
-	return RunModelOn(eng, c.Model(unlock, lock), 0, lock, c.Amount, flags, dbg)
+	return RunModelOn(eng, c.Model(unlock, lock), c.Index(), lock, c.Amount, flags, dbg)
 }
 
 // RunModelOn is RunModel on an engine the caller owns (and may have used before).
 func RunModelOn(eng interpreter.Engine, m ref.Tx, idx int, lock []byte, amount uint64, flags interp.Flags, dbg interpreter.Debugger) (out Outcome) {
+	return RunModelOpts(eng, m, idx, lock, amount, flags, dbg)
+}
+
+// RunModelOpts is RunModelOn with further execution options appended (e.g. WithState).
+func RunModelOpts(eng interpreter.Engine, m ref.Tx, idx int, lock []byte, amount uint64, flags interp.Flags, dbg interpreter.Debugger, extra ...interpreter.ExecutionOptionFunc) (out Outcome) {
 	// the transaction object is built field by field in five cases of eight; in the others it is a
 	// Clone(), a clone of a clone, or parsed from the extended serialisation (chosen by the shape
 	// of the case, so that a replay takes the same way)
@@ -177,6 +211,7 @@ func RunModelOn(eng interpreter.Engine, m ref.Tx, idx int, lock []byte, amount u
 	if dbg != nil {
 		opts = append(opts, interpreter.WithDebugger(dbg))
 	}
+	opts = append(opts, extra...)
 	defer func() {
 		if x := recover(); x != nil {
 			if be, ok := x.(BudgetExceeded); ok {
@@ -188,6 +223,8 @@ func RunModelOn(eng interpreter.Engine, m ref.Tx, idx int, lock []byte, amount u
 		switch r := dbg.(type) {
 		case *Recorder:
 			out.Steps, out.Recorder = r.Steps, r
+		case *Keeper:
+			out.Steps, out.Recorder = r.Steps, &r.Recorder
 		case *Budget:
 			out.Steps, out.Recorder = r.Steps, &r.Recorder
 		}
@@ -341,5 +378,5 @@ func (r *Reuse) RunModelOn(eng interpreter.Engine, m ref.Tx, idx int, lock []byt
 
 // RunOn is RunOn with the reused objects.
 func (r *Reuse) RunOn(eng interpreter.Engine, unlock, lock []byte, flags interp.Flags, c TxCtx, dbg interpreter.Debugger) Outcome {
-	return r.RunModelOn(eng, c.Model(unlock, lock), 0, lock, c.Amount, flags, dbg)
+	return r.RunModelOn(eng, c.Model(unlock, lock), c.Index(), lock, c.Amount, flags, dbg)
 }
